@@ -23,6 +23,8 @@ def declare(rep):
     rep.rule("C16.number-format", "the writer's coordinate format only produces tokens the reader's number regex matches entirely", floor=1)
     rep.rule("C16.mesh-record-length", "mesh overload of write_cell_data: the declared integer count of a cell record is 1 + (number of faces) + sum over ALL faces of their node counts (faces may be arbitrary polygons)", floor=1)
     rep.rule("C16.record-per-line", "the reader takes every line of the CELLS section as one cell record (std::getline), so the writer ends a record with exactly one newline emitted at the level of the loop over the cells - never inside the loops over a cell's faces / nodes", floor=2)
+    rep.rule("C16.local-ids-by-lookup", "mesh_reader::get_cell_mesh renumbers the point ids of a cell's faces through a look-up built from the points the cell's faces reference (the positions copied are exactly those points, in that order): arithmetic on the id assumes a contiguous block of points, which a cell with an unreferenced point breaks", floor=1)
+    rep.rule("C16.path-as-given-first", "mesh_reader opens the path it was given before any path derived from it (the project directory is only a fall-back): a file just written to a relative path must not be replaced by a namesake elsewhere", floor=1)
     rep.rule("C16.declared-counts", "declared counts (points, per-cell integers, cells, cell types, field length) agree with what the loops emit", floor=5)
     rep.rule("C16.reader-conventions", "the reader requires cell type 42 and takes the first integer of a record as its length", floor=2)
     rep.rule("C16.compact-before-count", "the cells are compacted (rebase) before any count, offset or coordinate is taken from them", floor=1)
@@ -100,6 +102,85 @@ def record_per_line(rep, prog, r_faces):
             raise AnalysisBroken("%s: no line break found at the level of the loop over the cells" % fn["key"])
 
 
+def local_ids_by_lookup(rep, prog):
+    fn = prog.fn("mesh_reader::get_cell_mesh")
+    fi = prog.index(fn)
+    n = 0
+    for a in walk(fn["body"]):
+        tgt = rhs = None
+        if a.get("k") == "BinaryOperator" and a.get("op") == "=":
+            tgt, rhs = strip(a["c"][0]), a["c"][1]
+        elif a.get("k") == "CompoundAssignOperator":
+            tgt, rhs = strip(a["c"][0]), None
+        if tgt is None:
+            continue
+        is_elem = tgt.get("k") == "CXXOperatorCallExpr" and tgt.get("op") == "[]"
+        if not is_elem and tgt.get("k") == "DeclRefExpr":
+            # a reference loop variable over the ids of one face
+            for l_, _s, _c in fi.ancestors(a):
+                if l_.get("k") == "CXXForRangeStmt" and (l_.get("var") or {}).get("did") == (tgt.get("ref") or {}).get("did") and ((l_["var"].get("t") or "").rstrip().endswith("&")):
+                    is_elem = True
+        if not is_elem:
+            continue
+        # an element of a face's id vector inside the loop over the faces of the mesh being built
+        loop = fi.enclosing(a, ("CXXForRangeStmt",))
+        if loop is None or "face_point_ids" not in render(loop["range"]):
+            outer = [l for l, _s, _c in fi.ancestors(a) if l.get("k") == "CXXForRangeStmt" and "face_point_ids" in render(l["range"])]
+            if not outer:
+                continue
+        n += 1
+        old = render(tgt).replace(" ", "")
+        if rhs is None:
+            rep.violation("C16.local-ids-by-lookup", prog, fn, a, "point id renumbered by arithmetic", "%s: the local id is computed from the global id by arithmetic (%s): this is right only if the points of the cell form one contiguous block in which every point is used by a face; a cell written with a free node slot, or a mesh with a stray point, is read back with shifted or out-of-range node ids" % (short(a, 60), a.get("op")))
+            continue
+        r0 = strip(rhs)
+        while r0.get("k") in ("ImplicitCastExpr", "ParenExpr") and r0.get("c"):
+            r0 = strip(r0["c"][0])
+        lookup = (r0.get("k") == "CXXOperatorCallExpr" and r0.get("op") == "[]" and old in render(r0).replace(" ", "")) or (r0.get("k") == "CXXMemberCallExpr" and r0.get("callee", "").split("::")[-1] in ("at", "find")) \
+            or (r0.get("k") == "MemberExpr" and any(x.get("k") == "CXXMemberCallExpr" and x.get("callee", "").split("::")[-1] in ("find", "at") for x in walk(r0)))
+        arith = r0.get("k") == "BinaryOperator" and r0.get("op") in ("-", "+") and old in render(r0).replace(" ", "")
+        if lookup:
+            rep.ok("C16.local-ids-by-lookup", prog, fn, a, "%s: local id looked up by global id" % short(a, 60))
+        elif arith:
+            rep.violation("C16.local-ids-by-lookup", prog, fn, a, "point id renumbered by arithmetic", "%s: the local id is computed from the global id by arithmetic: this is right only if the points of the cell form one contiguous block in which every point is used by a face; a cell written with a free node slot, or a mesh with a stray point, is read back with shifted or out-of-range node ids" % short(a, 60))
+        else:
+            raise AnalysisBroken("mesh_reader::get_cell_mesh: %s: form of the renumbering not recognised" % short(a, 60))
+    if n == 0:
+        raise AnalysisBroken("mesh_reader::get_cell_mesh: renumbering of the face point ids not found")
+
+
+def path_as_given_first(rep, prog):
+    from ..model import expand
+    ctors = [f for f in prog.fns("mesh_reader::mesh_reader") if isinstance(f.get("body"), dict) and f.get("params")]
+    if not ctors:
+        raise AnalysisBroken("mesh_reader constructor not found")
+    for fn in ctors:
+        fi = prog.index(fn)
+        pdid = fn["params"][0]["did"]
+        streams = {}
+        for v in walk(fn["body"]):
+            if v.get("k") == "Var" and "ifstream" in (v.get("t") or "") and isinstance(v.get("init"), dict):
+                e = strip(expand(fn, v["init"]))
+                refs = [x for x in walk(e) if x.get("k") == "DeclRefExpr" and (x.get("ref") or {}).get("dk") in ("Var", "ParmVar") and not (x.get("ref") or {}).get("qn")]
+                given = bool(refs) and all((x.get("ref") or {}).get("did") == pdid for x in refs) and not any(x.get("k") in ("StringLiteral",) or (x.get("k") in ("CXXOperatorCallExpr", "CallExpr") and "operator+" in x.get("callee", "")) for x in walk(e))
+                streams[v["did"]] = (v, given)
+        tests = []
+        for c in walk(fn["body"]):
+            if c.get("k") == "CXXMemberCallExpr" and c.get("callee", "").split("::")[-1] in ("good", "is_open", "fail", "operator bool"):
+                o = strip(call_obj(c) or {})
+                if o.get("k") == "DeclRefExpr" and (o.get("ref") or {}).get("did") in streams:
+                    tests.append((fi.order[id(c)], o["ref"]["did"], c))
+        if not tests:
+            raise AnalysisBroken("mesh_reader::mesh_reader: no test of an input stream found")
+        tests.sort()
+        first = streams[tests[0][1]]
+        if first[1]:
+            rep.ok("C16.path-as-given-first", prog, fn, tests[0][2], "the stream opened on the path as given ('%s') is tried first" % first[0].get("name"))
+        else:
+            rep.violation("C16.path-as-given-first", prog, fn, tests[0][2], "a derived path is tried before the path as given",
+                          "mesh_reader first tries '%s' (%s), a path derived from the one it was given, and only then the given path: a file that was just written to a relative path in the working directory is silently replaced, on read-back, by a file of the same name under the other directory" % (first[0].get("name"), short(first[0].get("init") or {}, 60)))
+
+
 def run(rep, prog, tier):
     if not rep.rules:
         declare(rep)
@@ -114,6 +195,8 @@ def run(rep, prog, tier):
     wfile, wcell = wfile[0], wcell[0]
     r_pos, r_faces, r_types = prog.fn("mesh_reader::get_node_pos"), prog.fn("mesh_reader::read_cell_faces"), prog.fn("mesh_reader::get_cell_types")
     record_per_line(rep, prog, r_faces)
+    local_ids_by_lookup(rep, prog)
+    path_as_given_first(rep, prog)
     rx_pos, rx_faces, rx_types = regexes(r_pos), regexes(r_faces), regexes(r_types)
     tw = emitted_templates(wfile) + emitted_templates(wcell)
     def find_line(key):
